@@ -188,7 +188,19 @@ class TU:
         if k == "InitListExpr":
             return ("init", tuple(self._expr(a) for a in inner))
         if k == "LambdaExpr":
-            return ("lambda", n)
+            caps, body = [], []
+            for c in inner:
+                if c.get("kind") == "CXXRecordDecl":
+                    for m in c.get("inner", []):
+                        if m.get("kind") == "FieldDecl":
+                            caps.append(m["type"]["qualType"])
+                        if m.get("kind") == "CXXMethodDecl" and m.get("name") == "operator()":
+                            for b in m.get("inner", []):
+                                if b.get("kind") == "CompoundStmt":
+                                    body = self._block(b)
+                if c.get("kind") == "CompoundStmt" and not body:
+                    body = self._block(c)
+            return ("lambda", tuple(caps), tuple(body))
         if k == "CompoundLiteralExpr" and inner:
             return self._expr(inner[0])
         return ("other", k)
